@@ -813,7 +813,7 @@ Proof.
     as [w2 [targets [written [Ew [L1 [L2 [L3 [L4 [Wok [Sok [Wnd Wall]]]]]]]]]]].
   { apply incl_refl. } { intros v sp h ct []. } { intros sp h. subst w1. cbn. split; [discriminate|intros [v [ct []]]]. }
   { constructor. }
-  fold (refs objs). rewrite Ew. unfold w_rels.
+  fold (refs objs). rewrite Ew. rewrite app_nil_r. unfold w_rels.
   replace (valid_part_name part) with true by (symmetry; apply valid_part_of). rewrite orb_true_r.
   set (w3 := mk_w _ _ _ _ _ _).
   rewrite (tail_calls S F w3 core thumb); [|subst w3 w1; cbn; now rewrite L3|subst w3 w1; cbn; now rewrite L4|exact Nthumb].
